@@ -149,6 +149,38 @@ def s_bundle_cond(rng, nval):
     return _mk(p.prog, "any_all_inlined", rng, nval, edges=p.edges)
 
 
+def s_func_configured(rng, nval):
+    """Entities configured inside a function whose int parameter has the name of a global int of another value."""
+    p = P(rng)
+    ms = [p.inp() for _ in range(rng.randint(2, 3))]
+    p.prog.append(["bun", "b", ["B", [["v", m] for m in ms]]])
+    g = rng.randint(-3, 10)
+    p.prog.append(["int", "lim", ["n", g]])
+    kind = rng.choice(["any", "all", "sig", "sigl"])
+    op = rng.choice(CMP_OPS)
+    if kind in ("any", "all"):
+        cond = [kind, op, ["v", "b"], ["v", "lim"]]
+        params = [["Entity", "e"], ["int", "lim"]]
+    elif kind == "sig":
+        cond = ["c", op, ["v", "v"], ["v", "lim"]]
+        params = [["Entity", "e"], ["Signal", "v"], ["int", "lim"]]
+    else:
+        cond = ["c", op, ["v", "lim"], ["v", "v"]]
+        params = [["Entity", "e"], ["Signal", "v"], ["int", "lim"]]
+    p.prog.append(["func", "cfg", params, [["set", "e", "enable", cond]], None])
+    if rng.random() < 0.6:
+        top = p.place()
+        tc = [kind, op, ["v", "b"], ["v", "lim"]] if kind in ("any", "all") else \
+            (["c", op, ["v", ms[0]], ["v", "lim"]] if kind == "sig" else ["c", op, ["v", "lim"], ["v", ms[0]]])
+        p.enable(top, tc)
+    for _ in range(rng.randint(1, 3)):
+        ent = p.place()
+        k = rng.choice([x for x in range(-3, 11) if x != g])
+        args = [["v", ent]] + ([["v", rng.choice(ms)]] if len(params) == 3 else []) + [["n", k]]
+        p.prog.append(["expr", ["call", "cfg", args]])
+    return _mk(p.prog, "function_configured_param_named_like_global", rng, nval, edges=p.edges)
+
+
 def s_chest(rng, nval):
     p = P(rng)
     a = p.inp()
@@ -173,7 +205,7 @@ def s_chest(rng, nval):
     return _mk(p.prog, "chest_output_" + k, rng, nval, edges=p.edges, chests=True)
 
 
-STRATA = [(s_inline, 4), (s_noninline, 5), (s_condvalue, 3), (s_shared_cmp, 2), (s_fanout, 2), (s_bundle_cond, 2), (s_chest, 4)]
+STRATA = [(s_inline, 4), (s_noninline, 5), (s_condvalue, 3), (s_shared_cmp, 2), (s_fanout, 2), (s_bundle_cond, 2), (s_func_configured, 2), (s_chest, 4)]
 
 
 def gen_cases(tier, seed):
